@@ -136,7 +136,7 @@ func ruleCharUnit(c *Ctx) {
 			}
 		}
 	}
-	c.atLeast("functions with character-mode blocks", nRegions, 2)
+	c.atLeast("functions with character-mode blocks", nRegions, 1)
 	c.atLeast("character-mode helpers", nHelpers, 1)
 	c.atLeast("uses of the language's UTF-8 decoder in character mode", nDecoders, 3) // the byte/character choice may be shared by one helper
 	if len(idx) == 0 {
